@@ -30,7 +30,9 @@ type SpecCtx struct {
 	bound  map[string]SV
 	depth  int
 	qn     int
+	entryCtx *SpecCtx // loop invariants: the state on entry to the loop, for entry(e)
 	sides  *[]*Term // typing facts of memory cells read while evaluating
+	assume bool     // the formula being evaluated sits in an assumed (positive-hypothesis) position
 }
 
 // goal evaluates a clause that is to be proved: typing facts of the cells it reads are
@@ -39,6 +41,7 @@ func (c *SpecCtx) goal(e *Expr) *Term {
 	var sides []*Term
 	n := *c
 	n.sides = &sides
+	n.assume = false
 	t := n.evalBool(e)
 	return Implies(And(sides...), t)
 }
@@ -47,6 +50,7 @@ func (c *SpecCtx) fact(e *Expr) *Term {
 	var sides []*Term
 	n := *c
 	n.sides = &sides
+	n.assume = true
 	t := n.evalBool(e)
 	return And(And(sides...), t)
 }
@@ -148,6 +152,11 @@ func (c *SpecCtx) eval(e *Expr) SV {
 	case "spec":
 		return c.specCall(e)
 	case "un":
+		if e.Name == "!" {
+			n := *c
+			n.assume = !c.assume
+			return mathBool(Not(n.evalBool(e.Args[0])))
+		}
 		x := c.eval(e.Args[0])
 		switch e.Name {
 		case "-":
@@ -435,6 +444,15 @@ func (c *SpecCtx) callBuiltin(e *Expr) SV {
 	case "off":
 		x := c.eval(e.Args[0])
 		return mathInt(x.L[1])
+	case "entry": // value of an expression when the enclosing loop was entered
+		if c.entryCtx == nil {
+			c.fail(e, "entry() is only meaningful in loop invariants")
+		}
+		n := *c.entryCtx
+		n.sides = c.sides
+		n.assume = c.assume
+		n.bound = c.bound
+		return n.eval(e.Args[0])
 	case "fresh": // allocated during the call / since entry
 		x := c.eval(e.Args[0])
 		return mathBool(And(Ge(x.L[0], c.old.Alloc), Lt(x.L[0], c.st.Alloc)))
@@ -508,7 +526,13 @@ func (c *SpecCtx) binary(e *Expr) SV {
 	op := e.Name
 	switch op {
 	case "&&", "||", "==>", "<==>":
-		a := c.evalBool(e.Args[0])
+		lc := c
+		if op == "==>" {
+			n := *c
+			n.assume = !c.assume
+			lc = &n
+		}
+		a := lc.evalBool(e.Args[0])
 		b := c.evalBool(e.Args[1])
 		switch op {
 		case "&&":
@@ -646,9 +670,15 @@ func (c *SpecCtx) quant(e *Expr) SV {
 	n.sides = &sides
 	body := n.evalBool(e.Args[2])
 	if e.Op == "forall" {
+		if c.assume {
+			return mathBool(Forall(vars, Implies(rng, And(And(sides...), body))))
+		}
 		return mathBool(Forall(vars, Implies(And(rng, And(sides...)), body)))
 	}
-	return mathBool(Exists(vars, And(rng, And(sides...), body)))
+	if c.assume {
+		return mathBool(Exists(vars, And(rng, And(sides...), body)))
+	}
+	return mathBool(Exists(vars, And(rng, body)))
 }
 
 // evalLval evaluates a modifies-clause item into cell ranges.
